@@ -18,7 +18,8 @@ EXPLANATION = (
     ' Third round: the root list SSEQ tests against equals the default --root-cats of the Japanese command line (R4.2 root-list); Functor.__xor__ as used by scan.'
     ' Fifth round: the bindings reader replaces bound features as a whole and nothing else; every shared variable position is tested, independently of earlier bindings.'
     ' Seventh round: every input of the shipped Japanese unary table is within what the labels can say (R4.3 label-domain).'
-    ' Eighth round: no rule kept from a loop reads the loop variable (its symbol, its pattern) late (R4.1).')
+    ' Eighth round: no rule kept from a loop reads the loop variable (its symbol, its pattern) late (R4.1).'
+    ' Ninth and tenth round: the labelling function is evaluated on its own paths for every input of the shipped unary table and must give the label the shape calls for.')
 TRUSTED = ['CPython ast', 'schema table in sa/rules_grammar.py (from the property statement)', 'independent pattern parser sa/symcat.py',
            'class table of depccg/cat.py (which names are methods, which are properties)']
 
